@@ -1,25 +1,26 @@
 #!/bin/bash
-# tools/seed_eval.sh <PROP> <i> [tier] : confirm a seeded change (tests pass, demo fails with / passes without)
+# [SEED_SRC=dir SEED_DEST_I=n] tools/seed_eval.sh <PROP> <i> [tier] : confirm a seeded change (tests pass, demo fails with / passes without)
 # and run the corresponding check against it in a scratch worktree.  Writes /verif/seeded/<PROP>_<i>/.
 PROP=$1; I=$2; TIER=${3:-quick}
-SRC=/tmp/seed_$PROP/out
-DEST=/verif/seeded/${PROP}_$I
+SRC=${SEED_SRC:-/tmp/seed_$PROP/out}          # SEED_SRC / SEED_DEST_I: second-round seeds live elsewhere and get new numbers
+DI=${SEED_DEST_I:-$I}
+DEST=/verif/seeded/${PROP}_$DI
 mkdir -p $DEST
 cp $SRC/patch_$I.diff $DEST/patch.diff; cp $SRC/demo_$I.py $DEST/demo.py; cp $SRC/meta_$I.json $DEST/meta_agent.json
 WT=$(mktemp -d /tmp/sev_XXXXXX)
 git -C /repo worktree add -f "$WT" HEAD >/dev/null 2>&1
 cd $WT
-PYTHONPATH=$WT/src timeout 900 /venv/bin/python $DEST/demo.py >/tmp/sev_clean_$PROP$I.log 2>&1; CLEAN=$?
+PYTHONPATH=$WT/src timeout 900 /venv/bin/python $DEST/demo.py >/tmp/sev_clean_$PROP$DI.log 2>&1; CLEAN=$?
 git apply $DEST/patch.diff || { echo "PATCH DOES NOT APPLY"; }
-PYTHONPATH=$WT/src timeout 900 /venv/bin/python $DEST/demo.py >/tmp/sev_mut_$PROP$I.log 2>&1; MUT=$?
+PYTHONPATH=$WT/src timeout 900 /venv/bin/python $DEST/demo.py >/tmp/sev_mut_$PROP$DI.log 2>&1; MUT=$?
 TESTS=$(PYTHONPATH=$WT/src /venv/bin/python -m pytest -q -p no:cacheprovider --timeout=900 -q 2>&1 | tail -1)
 git clean -fdq tests/ 2>/dev/null
 cd /verif
-AUREL_REPO="$WT" VERIF_EVIDENCE_DIR="$WT/.ev" VERIF_REPLAY_DIR="$WT/.rp" timeout 3000 ./check "$PROP" --tier "$TIER" > /tmp/sev_check_$PROP$I.log 2>&1; CHK=$?
-NVIOL=$(grep -c "^VIOLATION" /tmp/sev_check_$PROP$I.log)
-FIRST=$(grep -A1 "^VIOLATION" /tmp/sev_check_$PROP$I.log | sed -n 2p | cut -c1-300)
+AUREL_REPO="$WT" VERIF_EVIDENCE_DIR="$WT/.ev" VERIF_REPLAY_DIR="$WT/.rp" timeout 3000 ./check "$PROP" --tier "$TIER" > /tmp/sev_check_$PROP$DI.log 2>&1; CHK=$?
+NVIOL=$(grep -c "^VIOLATION" /tmp/sev_check_$PROP$DI.log)
+FIRST=$(grep -A1 "^VIOLATION" /tmp/sev_check_$PROP$DI.log | sed -n 2p | cut -c1-300)
 git -C /repo worktree remove --force "$WT"
-echo "$PROP/$I demo_clean_exit=$CLEAN demo_mut_exit=$MUT tests='$TESTS' check_exit=$CHK violations=$NVIOL first='$FIRST'"
+echo "$PROP/$DI demo_clean_exit=$CLEAN demo_mut_exit=$MUT tests='$TESTS' check_exit=$CHK violations=$NVIOL first='$FIRST'"
 python3 - <<PY
 import json
 m=json.load(open('$DEST/meta_agent.json'))
